@@ -19,10 +19,10 @@ def showCliErr : CliErr → String
   | .zeroDivision => "ERR zerodiv"
   | .index => "ERR index"
 
-def showRat (q : Rat) : String := s!"{q.num}/{q.den}"
+def showRatCli (q : Rat) : String := s!"{q.num}/{q.den}"
 
-def showRats (vs : List Rat) : String :=
-  if vs.isEmpty then "-" else ",".intercalate (vs.map showRat)
+def showRatsCli (vs : List Rat) : String :=
+  if vs.isEmpty then "-" else ",".intercalate (vs.map showRatCli)
 
 def hexVal (c : Char) : Nat :=
   if '0' ≤ c && c ≤ '9' then c.toNat - 48
@@ -46,11 +46,11 @@ def showEta (e : Eta) : String :=
   match e with
   | .inf => "inf"
   | .int v => s!"i{v}"
-  | .flt .. => "f" ++ String.ofList e.str ++ "=" ++ (match e.toRat? with | some q => showRat q | none => "?")
+  | .flt .. => "f" ++ String.ofList e.str ++ "=" ++ (match e.toRat? with | some q => showRatCli q | none => "?")
 
 def showDir : Option Direction → String
   | none => "{}"
-  | some d => s!"r_x={showRat d.rx} r_y={showRat d.ry} r_z={showRat d.rz}"
+  | some d => s!"r_x={showRatCli d.rx} r_y={showRatCli d.ry} r_z={showRatCli d.rz}"
 
 def showParams (ps : List (List Char × Nat)) : String :=
   "{" ++ ",".intercalate (ps.map fun (k, v) => String.ofList k ++ s!"={v}") ++ "}"
@@ -67,7 +67,7 @@ def showSpec (sp : InputSpec) : String :=
   "|noise=" ++ String.ofList sp.noiseName ++ "{" ++ showDir sp.direction ++ "}" ++
   "|deformation=" ++ showOpt sp.deformationName ++
   "|decoder=" ++ String.ofList sp.decoderName ++ showParams sp.decoderParams ++
-  "|rates=" ++ showRats sp.errorRates
+  "|rates=" ++ showRatsCli sp.errorRates
 
 /-- rates of one simulation in ascending order (a SplittingSimulation sorts them itself) -/
 def showSim : SimKey → String
@@ -75,7 +75,7 @@ def showSim : SimKey → String
     let known := (rs.filterMap id).mergeSort (fun a b => a ≤ b)
     let unknown := rs.filter Option.isNone
     (match c with | none => "{}" | some (x, y, z) => s!"{x}x{y}x{z}") ++ "@" ++
-    ",".intercalate (unknown.map (fun _ => "{}") ++ known.map showRat)
+    ",".intercalate (unknown.map (fun _ => "{}") ++ known.map showRatCli)
 
 def sortFiles (fs : List (List Char × InputSpec)) : List (List Char × InputSpec) :=
   fs.mergeSort fun a b => String.ofList a.1 ≤ String.ofList b.1
@@ -95,7 +95,7 @@ def handleCli : List String → Option String
   | ["range", spec] =>
     some (match readRange (pctDecode spec.toList) with
       | .error e => showCliErr e
-      | .ok vs => showRats vs)
+      | .ok vs => showRatsCli vs)
   | ["etas", str] =>
     some (match readBiasRatios (pctDecode str.toList) with
       | .error e => showCliErr e
